@@ -27,7 +27,7 @@ var st stats
 func runOne(seed uint64, n int, opt hist.Options) ([]byte, error) {
 	var buf bytes.Buffer
 	out := bufio.NewWriter(&buf)
-	r := rng.New(seed*1000003 + uint64(n))
+	r := rng.New(rng.New(seed*1000003+uint64(n)).U64() ^ (uint64(n) * 0x9E3779B97F4A7C15))
 	h, err := hist.New(r, out, n, opt, nil)
 	if err != nil {
 		return nil, err
